@@ -1,3 +1,149 @@
-(* Properties_C05.v — statements for C05; being filled in *)
-From Coq Require Import ZArith List.
-From PS Require Import Arith EvalModel BSpline.
+(* Properties_C05.v — C05: lookup and evaluation are memory-safe for every coordinate vector.
+   Statements only; proofs in C05_Proofs.v (and C04_Proofs.v for ordered coordinates).
+
+   What is proved is the LOGIC of memory safety, about the same polymorphic model that is compared bitwise with
+   the C++: which centers a lookup can return, which coefficient positions the block walk reads, which knot
+   indices the one-dimensional routines depend on, how many gradient lanes are written. That the compiled C++
+   performs exactly these accesses is validated on every run by the ASan+UBSan build with assertions enabled
+   (tables allocated by the library itself), not proved. *)
+From Coq Require Import ZArith List Bool Lia QArith Qcanon.
+From PS Require Import Arith EvalModel Generated Dispatch C04_Proofs C05_Proofs.
+Import ListNotations.
+Local Open Scope Z_scope.
+
+(* ---------------------------------------------------------------------------------------------- *)
+(* (A) every coordinate vector — each coordinate non-NaN or NaN ("unordered": every comparison false) *)
+Section Lookup.
+Context {A : Arith}.
+Variable ord : T A -> Prop.
+Hypothesis laws : OrdLaws A ord.
+Variable t : @table A.
+Variable xs : list (T A).
+Hypothesis Hwf : Forall (wf_dim ord) (dims t).
+Hypothesis Hxs : Forall (fun x => ord x \/ unordered x) xs.
+Hypothesis Hlen : length xs = length (dims t).
+
+(* the lookup terminates (never exhausts its iteration budget) and either fails or returns, in every dimension,
+   order <= center <= nknots-order-2: a NaN coordinate is always rejected *)
+Theorem C05_lookup_fails_or_in_range :
+  searchcenters t xs = COutside \/
+  exists cs, searchcenters t xs = CFound cs /\ Forall2 center_in_range (dims t) cs.
+Proof. exact (lookup_safe_dims ord laws (dims t) xs Hwf Hxs Hlen). Qed.
+
+Theorem C05_nan_rejected : forall (d : @dimn A) (x : T A) fuel, unordered x ->
+  search_dim (d_kn d) (d_nknots d) fuel (Z.of_nat (d_order d)) (d_naxes d) x = Outside.
+Proof. intros d x fuel U. exact (search_dim_unordered d x fuel U). Qed.
+End Lookup.
+
+(* ---------------------------------------------------------------------------------------------- *)
+(* (B) coefficient reads. [shape_table t] is the table t with every VALUE forgotten: same orders, knot counts,
+   axes lengths and strides, evaluated under the collecting arithmetic LogA in which a value IS the list of
+   coefficient positions it was computed from (coefficient at position p := [p]; a + b := positions of a then of
+   b; a * b := positions of b, the coefficient factor). core_generic is polymorphic in the arithmetic and its
+   control flow (odometer, tablepos) never inspects a value, so the result below is the exact sequence of
+   coefficient positions read by ndsplineeval_core for ANY arithmetic and any local-basis values. *)
+Definition shape_table {A : Arith} (t : @table A) : @table LogA :=
+  @mkTable LogA (map (fun d => @mkDim LogA (d_order d) (d_nknots d) (d_naxes d) (d_stride d) (fun _ => [])) (dims t)) logcf.
+Definition shape_bases {A : Arith} (lbs : list (list (T A))) : list (list (T LogA)) := map (map (fun _ => [])) lbs.
+
+Theorem C05_coefficient_reads_in_bounds : forall (A : Arith) (t : @table A) (cs : list Z) (lbs : list (list (T A))),
+  dims t <> [] ->
+  row_major (map d_naxes (dims t)) (strides_of t) ->                          (* strides are the row-major strides of the axes lengths *)
+  length cs = ndim_of t ->
+  Forall2 (fun c d => Z.of_nat (d_order d) <= c <= d_naxes d - 1) cs (dims t) ->     (* centers as returned by the lookup *)
+  Forall (fun p => 0 <= p < ncoeffs_of (map d_naxes (dims t)) (strides_of t))
+         (core_generic (shape_table t) cs (shape_bases lbs)).
+Proof.
+  intros A t cs lbs Hne Hrm Hcs Hc.
+  assert (E1 : map d_naxes (dims (shape_table t)) = map d_naxes (dims t)) by (unfold shape_table; cbn [dims]; rewrite map_map; reflexivity).
+  assert (E2 : strides_of (shape_table t) = strides_of t) by (unfold strides_of, shape_table; cbn [dims]; rewrite map_map; reflexivity).
+  rewrite <- E1, <- E2. apply core_generic_reads_in_bounds.
+  - reflexivity.
+  - unfold shape_table; cbn [dims]. destruct (dims t); [congruence|discriminate].
+  - rewrite E1, E2. exact Hrm.
+  - unfold ndim_of, shape_table in *; cbn [dims]. rewrite map_length. exact Hcs.
+  - unfold shape_table; cbn [dims]. clear - Hc. induction Hc; cbn [map]; constructor; [cbn [d_order d_naxes]; assumption|assumption].
+Qed.
+
+(* the number of coefficients is what the library allocates: naxes[0]*strides[0] *)
+Theorem C05_ncoeffs_is_product : forall ns ss, row_major ns ss -> ncoeffs_of ns ss = fold_right Z.mul 1 ns.
+Proof.
+  induction ns as [|n ns IH]; intros ss H; destruct ss as [|s ss]; try contradiction; [reflexivity|].
+  cbn [row_major] in H. destruct H as [Hn [Hrm Hs]]. specialize (IH ss Hrm).
+  unfold ncoeffs_of at 1. cbn [fold_right]. rewrite <- IH, Hs. unfold ncoeffs_of. destruct ns, ss; reflexivity.
+Qed.
+
+(* ---------------------------------------------------------------------------------------------- *)
+(* (C) knot reads: for ANY arithmetic, with no law whatsoever (comparisons may answer anything, as they do for
+   NaN), the one-dimensional routines — including every entry the recurrence computes before the re-indexing
+   discards the padding-dependent ones — do not depend on the knot array outside [-order, nknots+order), which is
+   the block the library allocates (allocate(nknots+2*order) + order). *)
+Section Knots.
+Context {A : Arith}.
+Variables kn kn' : Z -> T A.
+Variable nknots : Z.
+Variable n : nat.
+Hypothesis Hagree : forall i, - Z.of_nat n <= i < nknots + Z.of_nat n -> kn i = kn' i.
+Hypothesis Hn : 0 <= nknots.
+Variable x : T A.
+Variable c : Z.
+Hypothesis Hc : Z.of_nat n <= c <= nknots - Z.of_nat n - 2.
+
+Theorem C05_knot_reads_within_allocation :
+  bsplvb_simple kn nknots n x c = bsplvb_simple kn' nknots n x c /\
+  bspline_deriv_nonzero kn nknots n x c = bspline_deriv_nonzero kn' nknots n x c /\
+  bspline_nonzero kn nknots n x c = bspline_nonzero kn' nknots n x c /\
+  (forall i k, (i <= n)%nat -> bspline_deriv kn n x (c - Z.of_nat n + Z.of_nat i) k = bspline_deriv kn' n x (c - Z.of_nat n + Z.of_nat i) k) /\
+  (let l := adjust_left kn nknots (Z.of_nat n) x c in
+   l = adjust_left kn' nknots (Z.of_nat n) x c /\ -1 <= l <= nknots - 1 /\
+   deboor_rounds kn l x 0 n [rnd one] = deboor_rounds kn' l x 0 n [rnd one]).
+Proof.
+  split; [exact (bsplvb_simple_indep kn kn' nknots n Hagree x c Hc)|].
+  split; [exact (bspline_deriv_nonzero_indep kn kn' nknots n Hagree x c Hc)|].
+  split; [exact (bspline_nonzero_indep kn kn' nknots n Hagree x c Hc)|].
+  split.
+  - intros i k Hi. apply (bspline_deriv_indep kn kn' nknots n Hagree x); lia.
+  - cbv zeta. destruct (adjust_left_indep kn kn' nknots n Hagree x c Hc) as [E B].
+    split; [exact E|]. split; [exact B|].
+    apply (deboor_rounds_indep kn kn' nknots n Hagree _ x B); cbn [length]; lia.
+Qed.
+End Knots.
+
+(* ---------------------------------------------------------------------------------------------- *)
+(* (D) the gradient: either refused, or its ndim+1 results fit the lanes of the accumulator — an obligation over the
+   constants TRANSLATED from detail/simd.h on every run *)
+Theorem C05_gradient_lanes_fit : (MAXDIM <= gradient_lanes_available)%nat.
+Proof. vm_compute. repeat constructor. Qed.
+Theorem C05_gradient_refused_or_fits : forall (A : Arith) (t : @table A) xs cs,
+  match gradient_checked t xs cs with
+  | None => (MAXDIM < S (ndim_of t))%nat
+  | Some g => (length g = S (ndim_of t) /\ length g <= gradient_lanes_available)%nat
+  end.
+Proof.
+  intros A t xs cs. unfold gradient_checked. destruct (Nat.ltb_spec MAXDIM (S (ndim_of t))) as [H|H]; [exact H|].
+  unfold ndsplineeval_gradient. cbv zeta. rewrite map_length, seq_length. split; [reflexivity|].
+  pose proof C05_gradient_lanes_fit. lia.
+Qed.
+
+(* ---------------------------------------------------------------------------------------------- *)
+(* non-vacuity: a 2 x 3-dimensional shape (orders 1 and 2, axes 4 and 5, strides 5 and 1) with in-range centers;
+   the positions read are the 2*3 block starting at (1-1)*5 + (3-2) *)
+Definition ex5_tab : @table QcA :=
+  @mkTable QcA [@mkDim QcA 1%nat 6 4 5 (fun i => Q2Qc (inject_Z i)); @mkDim QcA 2%nat 8 5 1 (fun i => Q2Qc (inject_Z i))] (fun _ => Q2Qc 1).
+Example C05_hypotheses_satisfiable :
+  row_major (map d_naxes (dims ex5_tab)) (strides_of ex5_tab) /\
+  Forall2 (fun c d => Z.of_nat (d_order d) <= c <= d_naxes d - 1) [1; 3] (dims ex5_tab) /\
+  ncoeffs_of (map d_naxes (dims ex5_tab)) (strides_of ex5_tab) = 20 /\
+  core_generic (shape_table ex5_tab) [1; 3] (shape_bases (A := QcA) [[Q2Qc 1; Q2Qc 1]; [Q2Qc 1; Q2Qc 1; Q2Qc 1]]) = [1; 2; 3; 6; 7; 8].
+Proof.
+  split; [cbn; repeat split; lia|]. split; [repeat constructor; cbn; lia|]. split; vm_compute; reflexivity.
+Qed.
+
+Print Assumptions C05_lookup_fails_or_in_range.
+Print Assumptions C05_nan_rejected.
+Print Assumptions C05_coefficient_reads_in_bounds.
+Print Assumptions C05_ncoeffs_is_product.
+Print Assumptions C05_knot_reads_within_allocation.
+Print Assumptions C05_gradient_lanes_fit.
+Print Assumptions C05_gradient_refused_or_fits.
+Print Assumptions C05_hypotheses_satisfiable.
